@@ -99,7 +99,12 @@ fn install_from(idt: &mut InterruptDescriptorTable, lo: u8) {
 }
 
 fn check_installed(idt: &InterruptDescriptorTable, in_range: impl Fn(usize) -> bool, reference: Option<&InterruptDescriptorTable>, what: &str) -> CaseResult {
-    let missing = raw(&MISSING_TABLE.with(|t| t.clone()))[0];
+    let before = MISSING_TABLE.with(|t| t.clone());
+    check_installed_over(idt, raw(&before), in_range, reference, what)
+}
+
+/// `before` = raw content of the table before the installation
+fn check_installed_over(idt: &InterruptDescriptorTable, before: &[[u8; 16]; 256], in_range: impl Fn(usize) -> bool, reference: Option<&InterruptDescriptorTable>, what: &str) -> CaseResult {
     let r = raw(idt);
     for v in 0..256 {
         let want = in_range(v) && !reserved(v);
@@ -110,8 +115,37 @@ fn check_installed(idt: &InterruptDescriptorTable, in_range: impl Fn(usize) -> b
                 ensure_eq!(r[v], raw(refi)[v], "{}: entry of vector {} differs from the one the same macro site installs for the full range", what, v);
             }
         } else {
-            ensure_eq!(r[v], missing, "{}: vector {} (in range: {}, reserved: {}) must be left untouched", what, v, in_range(v), reserved(v));
+            ensure_eq!(r[v], before[v], "{}: vector {} (in range: {}, reserved: {}) must be left untouched", what, v, in_range(v), reserved(v));
         }
+    }
+    Ok(())
+}
+
+/// installation over a table that already holds entries: everything outside the range keeps its bytes
+fn prepopulated_case(c: &(u8, u8, Vec<(u8, u64, u8)>), obs: &mut Obs) -> CaseResult {
+    let (lo, hi, pre) = c;
+    let mut idt = Box::new(InterruptDescriptorTable::new());
+    for (v, addr, opt) in pre {
+        let v = 32 + (*v as usize % 224);
+        let o = unsafe { idt[v as u8].set_handler_addr(VirtAddr::new(crate::gen::sign_extend48(*addr))) };
+        if opt & 1 != 0 {
+            o.disable_interrupts(false);
+        }
+        if opt & 2 != 0 {
+            o.set_privilege_level(x86_64::PrivilegeLevel::Ring3);
+        }
+        if opt & 4 != 0 {
+            unsafe { o.set_stack_index((*opt >> 3) as u16 % 7) };
+        }
+    }
+    // a named exception entry as well
+    unsafe { idt.page_fault.set_handler_addr(VirtAddr::new(0x1234_5000)) };
+    let before = *raw(&idt);
+    install_incl(&mut idt, *lo, *hi);
+    let reference = FULL_INCL.with(|t| t.clone());
+    check_installed_over(&idt, &before, |v| v >= *lo as usize && v <= *hi as usize, Some(&reference), &format!("set_general_handler!(.., {}..={}) over a pre-populated table", lo, hi))?;
+    if !pre.is_empty() {
+        obs.nontrivial(&(lo, hi, pre.len()));
     }
     Ok(())
 }
@@ -344,6 +378,14 @@ pub fn run(run: &mut Run) {
         other_forms_exhaustive,
     );
     run.worker = keep;
+    let n = run.cases(20_000, 800_000);
+    run.sub(
+        "prepopulated",
+        "installation of a generated range over a table that already holds up to 6 generated entries (handler address, gate type, DPL, IST) and a page-fault handler: vectors in the range are overwritten with the stub entry, every other entry keeps its bytes",
+        n,
+        (any::<u8>(), any::<u8>(), proptest::collection::vec((any::<u8>(), any::<u64>(), any::<u8>()), 0..6)),
+        prepopulated_case,
+    );
     let n = run.cases(3_000, 100_000);
     run.sub(
         "forms",
